@@ -12,7 +12,8 @@ use stretto_verif_rt::{SystemTime, UNIX_EPOCH};
 use crate::CacheError;
 
 fn storage_bucket(t: Time) -> i64 {
-    (t.unix() + 1) as i64
+    // (a deadline beyond the representable range, e.g. a TTL of Duration::MAX, goes to the last bucket)
+    t.unix().saturating_add(1).min(i64::MAX as u64) as i64
 }
 
 fn cleanup_bucket(t: Time) -> i64 {
@@ -49,7 +50,7 @@ impl Time {
     pub fn unix(&self) -> u64 {
         self.created_at
             .duration_since(UNIX_EPOCH)
-            .map(|d| d + self.d)
+            .map(|d| d.saturating_add(self.d))
             .unwrap()
             .as_secs()
     }
